@@ -86,10 +86,15 @@ theorem apply_pure_keeps (cfg : Config) (s : State) (T R : Nat) (flags : List Na
         omega
 
 
-/-- the fields an operation of altair … deneb needs besides those of `P0DInv` -/
-def XFrame (s s' : State) : Prop :=
-  s'.block_roots = s.block_roots ∧ s'.current_epoch_participation = s.current_epoch_participation ∧
-  s'.previous_epoch_participation = s.previous_epoch_participation ∧ s'.current_sync_committee = s.current_sync_committee
+/-- the fields an operation of altair … deneb needs besides those of `P0DInv`, and which most operations leave alone -/
+structure XFrame (s s' : State) : Prop where
+  roots : s'.block_roots = s.block_roots
+  partc : s'.current_epoch_participation = s.current_epoch_participation
+  partp : s'.previous_epoch_participation = s.previous_epoch_participation
+  sc : s'.current_sync_committee = s.current_sync_committee
+  gt : s'.genesis_time = s.genesis_time
+  nwi : s'.next_withdrawal_index = s.next_withdrawal_index
+  nwv : s'.next_withdrawal_validator_index = s.next_withdrawal_validator_index
 
 /-- an accepted altair … deneb attestation: one participation list is rewritten (same length, bytes below 256) and the
 proposer's balance grows by at most `bits · R · 54` -/
@@ -102,7 +107,8 @@ theorem altair_attestation_shape (cfg : Config) (s s' : State) (att : Attestatio
     (h : Block.process_attestation_altair_pure cfg s att count committee proposer T = some s') :
     s'.validators = s.validators ∧ s'.slot = s.slot ∧ s'.randao_mixes = s.randao_mixes ∧ s'.fork = s.fork ∧
     s'.slashings = s.slashings ∧ s'.eth1_data = s.eth1_data ∧ s'.eth1_deposit_index = s.eth1_deposit_index ∧
-    s'.block_roots = s.block_roots ∧ s'.current_sync_committee = s.current_sync_committee ∧
+    s'.block_roots = s.block_roots ∧ s'.current_sync_committee = s.current_sync_committee ∧ s'.genesis_time = s.genesis_time ∧
+    s'.next_withdrawal_index = s.next_withdrawal_index ∧ s'.next_withdrawal_validator_index = s.next_withdrawal_validator_index ∧
     s'.current_epoch_participation.length = s.current_epoch_participation.length ∧ (∀ e ∈ s'.current_epoch_participation, e < 256) ∧
     s'.previous_epoch_participation.length = s.previous_epoch_participation.length ∧ (∀ e ∈ s'.previous_epoch_participation, e < 256) ∧
     ∃ p b δ, s.balances[p]? = some b ∧ s'.balances = s.balances.set p (b + δ) ∧ δ ≤ att.aggregation_bits.length * (R * 54) := by
@@ -172,14 +178,14 @@ theorem altair_attestation_shape (cfg : Config) (s s' : State) (att : Attestatio
                         | some b =>
                           simp only [hb] at h
                           cases h
-                          exact ⟨rfl, rfl, rfl, rfl, rfl, rfl, rfl, rfl, rfl, k1, k2, rfl, hpp, p, b, _, hb, rfl, hδ⟩
+                          exact ⟨rfl, rfl, rfl, rfl, rfl, rfl, rfl, rfl, rfl, rfl, rfl, rfl, k1, k2, rfl, hpp, p, b, _, hb, rfl, hδ⟩
                       · simp only [hcur, decide_false, Bool.false_eq_true, if_false] at h k1 k2
                         cases hb : s.balances[p]? with
                         | none => simp only [hb] at h; cases h
                         | some b =>
                           simp only [hb] at h
                           cases h
-                          exact ⟨rfl, rfl, rfl, rfl, rfl, rfl, rfl, rfl, rfl, rfl, hpc, k1, k2, p, b, _, hb, rfl, hδ⟩
+                          exact ⟨rfl, rfl, rfl, rfl, rfl, rfl, rfl, rfl, rfl, rfl, rfl, rfl, rfl, hpc, k1, k2, p, b, _, hb, rfl, hδ⟩
 
 
 /-- the balance loop of the sync aggregate keeps the list length and raises no balance by more than one participant
@@ -503,33 +509,34 @@ theorem processDeposit_ctx (cfg : Config) (ctx ctx' : Ctx) (st st' : State) (dep
 
 /-! ### frames of the extra fields -/
 
-theorem XFrame.refl (s : State) : XFrame s s := ⟨rfl, rfl, rfl, rfl⟩
+theorem XFrame.refl (s : State) : XFrame s s := ⟨rfl, rfl, rfl, rfl, rfl, rfl, rfl⟩
 
 theorem XFrame.trans {a b c : State} (h1 : XFrame a b) (h2 : XFrame b c) : XFrame a c :=
-  ⟨by rw [h2.1, h1.1], by rw [h2.2.1, h1.2.1], by rw [h2.2.2.1, h1.2.2.1], by rw [h2.2.2.2, h1.2.2.2]⟩
+  ⟨by rw [h2.roots, h1.roots], by rw [h2.partc, h1.partc], by rw [h2.partp, h1.partp], by rw [h2.sc, h1.sc], by rw [h2.gt, h1.gt],
+   by rw [h2.nwi, h1.nwi], by rw [h2.nwv, h1.nwv]⟩
 
 theorem processHeader_x (st st' : State) (block : SignedBlock) (p : Nat) (h : processHeader st block p = .ok st') : XFrame st st' := by
   unfold processHeader at h
   simp only [guard_bind, rget_bind] at h
   repeat' split at h
-  all_goals first | (cases h; done) | (cases h; exact ⟨rfl, rfl, rfl, rfl⟩)
+  all_goals first | (cases h; done) | (cases h; exact ⟨rfl, rfl, rfl, rfl, rfl, rfl, rfl⟩)
 
 theorem processRandao_x (cfg : Config) (ctx : Ctx) (st st' : State) (block : SignedBlock)
     (h : processRandaoReveal cfg ctx st block = .ok st') : XFrame st st' := by
   unfold processRandaoReveal at h
   simp only [guard_bind, rget_bind, ofOpt_bind] at h
   repeat' split at h
-  all_goals first | (cases h; done) | (cases h; exact ⟨rfl, rfl, rfl, rfl⟩)
+  all_goals first | (cases h; done) | (cases h; exact ⟨rfl, rfl, rfl, rfl, rfl, rfl, rfl⟩)
 
 theorem processEth1_x (cfg : Config) (st st' : State) (data : Eth1Data) (h : processEth1Vote cfg st data = .ok st') : XFrame st st' := by
   unfold processEth1Vote at h
   simp only [guard_bind] at h
   repeat' split at h
-  all_goals first | (cases h; done) | (cases h; exact ⟨rfl, rfl, rfl, rfl⟩)
+  all_goals first | (cases h; done) | (cases h; exact ⟨rfl, rfl, rfl, rfl, rfl, rfl, rfl⟩)
 
 theorem slash_x (cfg : Config) (s s' : State) (i p : Nat) (h : Block.slash_validator_pure cfg s i p = some s') : XFrame s s' := by
   obtain ⟨V, SL, B, hrec⟩ := slash_pure_record cfg s s' i p h
-  rw [hrec]; exact ⟨rfl, rfl, rfl, rfl⟩
+  rw [hrec]; exact ⟨rfl, rfl, rfl, rfl, rfl, rfl, rfl⟩
 
 /-! ### the invariant of altair … deneb block processing -/
 
@@ -546,6 +553,7 @@ structure AltExtra (cfg : Config) (T : Nat) (committee : SyncCommittee) (ctx : C
   sc : st.current_sync_committee = some committee
   sclen : committee.pubkeys.length = cfg.SYNC_COMMITTEE_SIZE
   sidx : ∃ l, ctx.syncIndices = some l ∧ committee.pubkeys.mapM ctx.pubkeyIndex = some l
+  gt : st.genesis_time < 2 ^ 64
 
 theorem AltExtra.keep {cfg : Config} {T : Nat} {committee : SyncCommittee} {ctx : Ctx} {st st' : State}
     (h : AltExtra cfg T committee ctx st) (hx : XFrame st st')
@@ -553,8 +561,8 @@ theorem AltExtra.keep {cfg : Config} {T : Nat} {committee : SyncCommittee} {ctx 
     (heff : st'.validators.map (·.effective_balance) = st.validators.map (·.effective_balance)) : AltExtra cfg T committee ctx st' := by
   have hl : st'.validators.length = st.validators.length := by
     have := congrArg List.length heff; simpa using this
-  exact ⟨by rw [hx.1]; exact h.roots, by rw [hx.2.1, hl]; exact h.partc, by rw [hx.2.2.1, hl]; exact h.partp, by rw [hT]; exact h.tab,
-    h.ctxT, h.ctxS, by rw [heff]; exact h.heb, by rw [hx.2.2.2]; exact h.sc, h.sclen, h.sidx⟩
+  exact ⟨by rw [hx.roots]; exact h.roots, by rw [hx.partc, hl]; exact h.partc, by rw [hx.partp, hl]; exact h.partp, by rw [hT]; exact h.tab,
+    h.ctxT, h.ctxS, by rw [heff]; exact h.heb, by rw [hx.sc]; exact h.sc, h.sclen, h.sidx, by rw [hx.gt]; exact h.gt⟩
 
 /-- configuration facts for altair … deneb (`T` = total active balance of the block's pre-state, `Bm` = bound on the
 effective balances): the base reward of `Bm` over 54/64 and the sync rewards of a whole committee fit into one balance
@@ -622,7 +630,7 @@ theorem alt_exit (cfg : Config) (S0 : State) (p Bm C T : Nat) (committee : SyncC
   refine ⟨h1, fun st' h => ⟨⟨(h2 st' h).1, ?_⟩, fun hf => by cases hf⟩⟩
   obtain ⟨hact, hes, _, _, hs⟩ := hi.base.inv.base.facts K'
   obtain ⟨v, hv, _, hst'⟩ := processVoluntaryExit_shape cfg ctx st st' exit hact K.hq hs.reg hes h
-  apply hi.ext.of_same (by rw [hst']; exact ⟨rfl, rfl, rfl, rfl⟩)
+  apply hi.ext.of_same (by rw [hst']; exact ⟨rfl, rfl, rfl, rfl, rfl, rfl, rfl⟩)
   apply sameCommittees_initiate cfg st st' exit.validator_index (hs.curfar K'.hC)
   · rw [hst']
   · rw [hst']
@@ -784,7 +792,7 @@ theorem alt_attestation (cfg : Config) (S0 : State) (p Bm C T : Nat) (committee 
     rw [hpure] at h
     simp only [optRes] at h
     cases h
-    obtain ⟨hv, hsl, hm, hf, hsls, e1, e2, hbr, hsc, c1, c2, p1, p2, q, b, δ, hb, hbs, hδ⟩ :=
+    obtain ⟨hv, hsl, hm, hf, hsls, e1, e2, hbr, hsc, hgt, _, _, c1, c2, p1, p2, q, b, δ, hb, hbs, hδ⟩ :=
       altair_attestation_shape cfg st st' att _ _ _ T R hR (hi.base.inv.nd _ _) hi.ext.partc.2 hi.ext.partp.2 hpure
     have hδ' : δ ≤ cfg.MAX_VALIDATORS_PER_COMMITTEE * (2 * Bm) := by
       have : att.aggregation_bits.length * (R * 54) ≤ cfg.MAX_VALIDATORS_PER_COMMITTEE * (R * 54) := Nat.mul_le_mul_right _ hmaxbits
@@ -804,7 +812,7 @@ theorem alt_attestation (cfg : Config) (S0 : State) (p Bm C T : Nat) (committee 
     refine ⟨⟨hi.base.after hinv (by rw [hv]) e2, ?_⟩, fun _ => ⟨e1, e2⟩⟩
     exact ⟨by rw [hbr]; exact hi.ext.roots, ⟨by rw [c1, hv]; exact hi.ext.partc.1, c2⟩, ⟨by rw [p1, hv]; exact hi.ext.partp.1, p2⟩,
       by rw [total_active_balance_vals cfg st st' hv hsl]; exact hi.ext.tab, hi.ext.ctxT, hi.ext.ctxS, by rw [hv]; exact hi.ext.heb,
-      by rw [hsc]; exact hi.ext.sc, hi.ext.sclen, hi.ext.sidx⟩
+      by rw [hsc]; exact hi.ext.sc, hi.ext.sclen, hi.ext.sidx, by rw [hgt]; exact hi.ext.gt⟩
 
 /-! ### the sync aggregate -/
 
@@ -865,7 +873,7 @@ theorem alt_sync (cfg : Config) (S0 : State) (p Bm C T : Nat) (committee : SyncC
         by rw [hrec]; exact hi.base.inv.base.vlen⟩,
        hi.base.inv.comm.keep (by rw [hrec]) (by rw [hrec]) (fun e _ _ => seed_of_mixes cfg st st' _ _ (by rw [hrec])), hi.base.inv.nd, hi.base.inv.hcur⟩
     refine ⟨hi.base.after hinv (by rw [hrec]) (by rw [hrec]), ?_⟩
-    exact hi.ext.keep (by rw [hrec]; exact ⟨rfl, rfl, rfl, rfl⟩) (total_active_balance_vals cfg st st' (by rw [hrec]) (by rw [hrec])) (by rw [hrec])
+    exact hi.ext.keep (by rw [hrec]; exact ⟨rfl, rfl, rfl, rfl, rfl, rfl, rfl⟩) (total_active_balance_vals cfg st st' (by rw [hrec]) (by rw [hrec])) (by rw [hrec])
 
 /-! ### deposits of altair … deneb -/
 
@@ -893,16 +901,16 @@ theorem alt_deposit (cfg : Config) (S0 : State) (p Bm C T : Nat) (committee : Sy
   · have hv : st'.validators = st.validators := by rw [hst]
     exact ⟨by rw [hst]; exact hi.ext.roots, by rw [hst]; exact hi.ext.partc, by rw [hst]; exact hi.ext.partp,
       by rw [total_active_balance_vals cfg st st' hv (by rw [hst])]; exact hi.ext.tab, hctxT, hctxS, heb, by rw [hst]; exact hi.ext.sc,
-      hi.ext.sclen, hsidx⟩
+      hi.ext.sclen, hsidx, by rw [hst]; exact hi.ext.gt⟩
   · have hv : st'.validators = st.validators := by rw [hst]
     exact ⟨by rw [hst]; exact hi.ext.roots, by rw [hst]; exact hi.ext.partc, by rw [hst]; exact hi.ext.partp,
       by rw [total_active_balance_vals cfg st st' hv (by rw [hst])]; exact hi.ext.tab, hctxT, hctxS, heb, by rw [hst]; exact hi.ext.sc,
-      hi.ext.sclen, hsidx⟩
-  · obtain ⟨eff, heff, hlim, hvals0, hbals, hslot, hmix, hfk, hsls, hdi, he1, hbr, hscc, hpart⟩ := addValidator_fields cfg
+      hi.ext.sclen, hsidx, by rw [hst]; exact hi.ext.gt⟩
+  · obtain ⟨eff, heff, hlim, hvals0, hbals, hslot, hmix, hfk, hsls, hdi, he1, hbr, hscc, hgt, _, _, hpart⟩ := addValidator_fields cfg
       { st with eth1_deposit_index := w64 (st.eth1_deposit_index + 1) } st' d.data.pubkey d.data.withdrawal_credentials d.data.amount hadd
     have hfork : st.fork ≠ .phase0 := by rw [hs.fork, hF]; exact hF0
     obtain ⟨hpc, hpp⟩ := hpart hfork
-    simp only [] at hvals0 hslot hbr hscc hpc hpp
+    simp only [] at hvals0 hslot hbr hscc hpc hpp hgt
     generalize hvdef : (⟨d.data.pubkey, d.data.withdrawal_credentials, eff, false, FAR_FUTURE_EPOCH, FAR_FUTURE_EPOCH, FAR_FUTURE_EPOCH,
       FAR_FUTURE_EPOCH⟩ : Validator) = v at hvals0
     have hfresh : FreshValidator v := by rw [← hvdef]; exact ⟨rfl, rfl, rfl, rfl, rfl⟩
@@ -911,7 +919,7 @@ theorem alt_deposit (cfg : Config) (S0 : State) (p Bm C T : Nat) (committee : Sy
     have hlen : st'.validators.length = st.validators.length + 1 := by rw [hvals0]; simp
     refine ⟨by rw [hbr]; exact hi.ext.roots, ⟨by rw [hpc, hlen]; simp [hi.ext.partc.1], ?_⟩, ⟨by rw [hpp, hlen]; simp [hi.ext.partp.1], ?_⟩,
       by rw [total_active_balance_append cfg st st' v hslot hvals0 hinact]; exact hi.ext.tab, hctxT, hctxS, heb,
-      by rw [hscc]; exact hi.ext.sc, hi.ext.sclen, hsidx⟩
+      by rw [hscc]; exact hi.ext.sc, hi.ext.sclen, hsidx, by rw [hgt]; exact hi.ext.gt⟩
     · rw [hpc]
       intro e he
       rcases List.mem_append.mp he with h | h
@@ -923,13 +931,11 @@ theorem alt_deposit (cfg : Config) (S0 : State) (p Bm C T : Nat) (committee : Sy
       · exact hi.ext.partp.2 e h
       · simp only [List.mem_singleton] at h; omega
 
-/-! ### altair blocks -/
+/-! ### the blocks of altair … deneb -/
 
-/-- an altair block container: no execution payload, no BLS changes; every list element inside its type limits, deposit
+/-- what the block containers of altair … deneb have in common: every list element inside its type limits, deposit
 amounts within one unit of the balance budget, the sync aggregate's bit vector of the configured size with zero padding -/
-structure AltairBlock (cfg : Config) (Bm : Nat) (block : SignedBlock) : Prop where
-  bls : block.bls_to_execution_changes = []
-  payload : block.execution_payload = none
+structure AltBody (cfg : Config) (Bm : Nat) (block : SignedBlock) : Prop where
   aslen : ∀ op ∈ block.attester_slashings, op.attestation_1.attesting_indices.length ≤ cfg.MAX_VALIDATORS_PER_COMMITTEE ∧
     op.attestation_2.attesting_indices.length ≤ cfg.MAX_VALIDATORS_PER_COMMITTEE
   atyped : ∀ att ∈ block.attestations, att.bits_wellformed = true ∧ att.aggregation_bits.length ≤ cfg.MAX_VALIDATORS_PER_COMMITTEE
@@ -939,24 +945,50 @@ structure AltairBlock (cfg : Config) (Bm : Nat) (block : SignedBlock) : Prop whe
     agg.sync_committee_bits.length = 8 * ((cfg.SYNC_COMMITTEE_SIZE + 7) / 8) ∧
     (agg.sync_committee_bits.drop cfg.SYNC_COMMITTEE_SIZE).all (· = false) = true
 
-/-- `OpSteps` for `AltInv`: every field discharged for every altair block -/
-theorem opSteps_altair (cfg : Config) (S0 : State) (p Bm C T : Nat) (committee : SyncCommittee) (K : P0Const cfg S0 Bm C) (KA : P0AConst cfg)
-    (KD : P0DConst cfg Bm) (KL : AltConst cfg S0 Bm T) (hF : S0.fork = .altair) (block : SignedBlock) (hb : AltairBlock cfg Bm block) :
-    OpSteps cfg block .altair (AltInv cfg S0 p Bm C T committee) :=
+/-- `OpSteps` for `AltInv` on a fork `F` after phase0, given the steps of the operations that only later forks have
+(execution payload, withdrawals, BLS changes) -/
+theorem opSteps_alt (cfg : Config) (S0 : State) (p Bm C T : Nat) (committee : SyncCommittee) (F : Fork) (K : P0Const cfg S0 Bm C) (KA : P0AConst cfg)
+    (KD : P0DConst cfg Bm) (KL : AltConst cfg S0 Bm T) (hF : S0.fork = F) (hF0 : F ≠ .phase0) (block : SignedBlock) (hb : AltBody cfg Bm block)
+    (hpayload : ∀ ctx payload, block.execution_payload = some payload →
+      Step (fun k => AltInv cfg S0 p Bm C T committee k ctx) false [()] (fun st _ => Block.process_execution_payload cfg st block payload)
+        (fun st _ => processExecutionPayload cfg st block payload))
+    (hwithdrawals : F ≥ .capella → ∀ ctx payload, block.execution_payload = some payload →
+      Step (fun k => AltInv cfg S0 p Bm C T committee k ctx) false [()] (fun st _ => Block.process_withdrawals cfg st payload)
+        (fun st _ => processWithdrawals cfg st payload))
+    (hbls : ∀ ctx, Step (fun k => AltInv cfg S0 p Bm C T committee k ctx) false block.bls_to_execution_changes
+      (Block.process_bls_to_execution_change cfg) (fun st op => processBLSToExecutionChange st op)) :
+    OpSteps cfg block F (AltInv cfg S0 p Bm C T committee) :=
   { mono := fun _ _ _ h => h.mono
     fork := fun _ _ _ h => by rw [h.base.inv.base.slash.fork]; exact hF
     header := fun k ctx st hi => alt_header cfg S0 p Bm C T committee block k ctx st hi
-    payload := fun ctx payload hpl => by rw [hb.payload] at hpl; cases hpl
-    withdrawals := fun ctx payload hpl => by rw [hb.payload] at hpl; cases hpl
+    payload := hpayload
+    withdrawals := hwithdrawals
     randao := fun ctx => alt_randao cfg S0 p Bm C T committee K KA block ctx
     eth1 := fun ctx => alt_eth1 cfg S0 p Bm C T committee K block ctx
     proposerSlashing := fun ctx => alt_proposerSlashing cfg S0 p Bm C T committee K _ ctx
     attesterSlashing := fun ctx => alt_attesterSlashing cfg S0 p Bm C T committee K _ ctx hb.aslen
-    attestation := fun ctx => alt_attestation cfg S0 p Bm C T committee .altair hF (by decide) K KA KD KL _ ctx hb.atyped
-    deposit := fun k ctx st d hd hi => alt_deposit cfg S0 p Bm C T committee .altair hF (by decide) K KD _ hb.dtyped k ctx st d hd hi
+    attestation := fun ctx => alt_attestation cfg S0 p Bm C T committee F hF hF0 K KA KD KL _ ctx hb.atyped
+    deposit := fun k ctx st d hd hi => alt_deposit cfg S0 p Bm C T committee F hF hF0 K KD _ hb.dtyped k ctx st d hd hi
     exit := fun ctx => alt_exit cfg S0 p Bm C T committee K _ ctx
-    blsChange := fun ctx k st x hx => by rw [hb.bls] at hx; cases hx
+    blsChange := hbls
     sync := fun ctx agg hsa => alt_sync cfg S0 p Bm C T committee K KA KD KL ctx agg (hb.styped agg hsa).1 (hb.styped agg hsa).2 }
+
+/-! ### altair -/
+
+/-- an altair block container: no execution payload, no BLS changes -/
+structure AltairBlock (cfg : Config) (Bm : Nat) (block : SignedBlock) : Prop where
+  bls : block.bls_to_execution_changes = []
+  payload : block.execution_payload = none
+  body : AltBody cfg Bm block
+
+/-- `OpSteps` for `AltInv`: every field discharged for every altair block -/
+theorem opSteps_altair (cfg : Config) (S0 : State) (p Bm C T : Nat) (committee : SyncCommittee) (K : P0Const cfg S0 Bm C) (KA : P0AConst cfg)
+    (KD : P0DConst cfg Bm) (KL : AltConst cfg S0 Bm T) (hF : S0.fork = .altair) (block : SignedBlock) (hb : AltairBlock cfg Bm block) :
+    OpSteps cfg block .altair (AltInv cfg S0 p Bm C T committee) :=
+  opSteps_alt cfg S0 p Bm C T committee .altair K KA KD KL hF (by decide) block hb.body
+    (fun ctx payload hpl => by rw [hb.payload] at hpl; cases hpl)
+    (fun _ ctx payload hpl => by rw [hb.payload] at hpl; cases hpl)
+    (fun ctx k st x hx => by rw [hb.bls] at hx; cases hx)
 
 /-- `processBlock_altair_eq`: for EVERY altair block, `ProcessBlock` simulates `process_block`, and the state after an
 accepted block satisfies the invariant again (with the budget that is left) -/
@@ -974,5 +1006,81 @@ theorem postSlot_altair (cfg : Config) (S0 : State) (p Bm C T k : Nat) (committe
     (r : Bytes) (hroot : block.o_post_root = some r) :
     Sim (Block.state_transition_post_slots cfg S0 block) (postSlotTransition cfg ctx S0 block) :=
   postSlot_sim (opSteps_altair cfg S0 p Bm C T committee K KA KD KL hF block hb) k ctx S0 hi htyped r hroot
+
+/-! ### bellatrix: the execution payload -/
+
+/-- an operation that leaves registry, slot, fork, slashings vector, balances, randao history and deposit index alone
+keeps `P0DInv` -/
+theorem P0DInv.keep_all {cfg : Config} {S0 : State} {p Bm C k : Nat} {ctx : Ctx} {st st' : State}
+    (h : P0DInv cfg S0 p Bm C (k + 1) ctx st)
+    (hv : st'.validators = st.validators) (hslot : st'.slot = st.slot) (hf : st'.fork = st.fork)
+    (hsl : st'.slashings = st.slashings) (hb : st'.balances = st.balances) (hm : st'.randao_mixes = st.randao_mixes)
+    (hd : st'.eth1_deposit_index = st.eth1_deposit_index) : P0DInv cfg S0 p Bm C k ctx st' :=
+  h.after ⟨h.inv.base.keep hv hslot hf hsl hb (by rw [hm]) (seed_of_mixes cfg st st' _ _ hm),
+    h.inv.comm.keep hv hslot (fun e _ _ => seed_of_mixes cfg st st' _ _ hm), h.inv.nd, h.inv.hcur⟩ (by rw [hv]) hd
+
+/-- an accepted execution payload writes the latest payload header only -/
+theorem processExecutionPayload_rec (cfg : Config) (st st' : State) (block : SignedBlock) (payload : ExecutionPayload)
+    (h : processExecutionPayload cfg st block payload = .ok st') :
+    st' = { st with latest_execution_payload_header := some payload.fields } := by
+  unfold processExecutionPayload at h
+  simp only [guard_bind, ofOpt_bind, rget_bind] at h
+  repeat' split at h
+  all_goals first | (cases h; done) | skip
+  all_goals
+    cases ht : timeAtSlot cfg st.slot st.genesis_time with
+    | ok t =>
+      rw [ht] at h
+      simp only [res_bind_ok, guard_bind] at h
+      repeat' split at h
+      all_goals first | (cases h; done) | (cases h; rfl)
+    | err => rw [ht] at h; cases h
+    | panic => rw [ht] at h; cases h
+    | outOfFuel => rw [ht] at h; cases h
+
+theorem alt_payload (cfg : Config) (S0 : State) (p Bm C T : Nat) (committee : SyncCommittee) (F : Fork) (hF : S0.fork = F)
+    (hFb : F ≥ .bellatrix) (K : P0Const cfg S0 Bm C) (hsps : 0 < cfg.SECONDS_PER_SLOT) (block : SignedBlock) (ctx : Ctx)
+    (payload : ExecutionPayload) (hx : payload.fields.extra_data.size ≤ cfg.MAX_EXTRA_DATA_BYTES) :
+    Step (fun k => AltInv cfg S0 p Bm C T committee k ctx) false [()] (fun st _ => Block.process_execution_payload cfg st block payload)
+      (fun st _ => processExecutionPayload cfg st block payload) := by
+  intro k st u hu hi
+  have hf : st.fork ≥ .bellatrix := by rw [hi.base.inv.base.slash.fork, hF]; exact hFb
+  refine ⟨sim_payload cfg st block payload hf hx hi.base.inv.base.mixes K.hpos hsps hi.ext.gt, fun st' h => ⟨?_, fun hf => by cases hf⟩⟩
+  show AltInv cfg S0 p Bm C T committee k ctx st'
+  have hrec := processExecutionPayload_rec cfg st st' block payload h
+  exact ⟨hi.base.keep_all (by rw [hrec]) (by rw [hrec]) (by rw [hrec]) (by rw [hrec]) (by rw [hrec]) (by rw [hrec]) (by rw [hrec]),
+    hi.ext.keep (by rw [hrec]; exact ⟨rfl, rfl, rfl, rfl, rfl, rfl, rfl⟩) (total_active_balance_vals cfg st st' (by rw [hrec]) (by rw [hrec])) (by rw [hrec])⟩
+
+/-- a bellatrix block container: no BLS changes; the payload's `extra_data` inside its type limit -/
+structure BellatrixBlock (cfg : Config) (Bm : Nat) (block : SignedBlock) : Prop where
+  bls : block.bls_to_execution_changes = []
+  xdata : ∀ payload, block.execution_payload = some payload → payload.fields.extra_data.size ≤ cfg.MAX_EXTRA_DATA_BYTES
+  body : AltBody cfg Bm block
+
+theorem opSteps_bellatrix (cfg : Config) (S0 : State) (p Bm C T : Nat) (committee : SyncCommittee) (K : P0Const cfg S0 Bm C) (KA : P0AConst cfg)
+    (KD : P0DConst cfg Bm) (KL : AltConst cfg S0 Bm T) (hsps : 0 < cfg.SECONDS_PER_SLOT) (hF : S0.fork = .bellatrix) (block : SignedBlock)
+    (hb : BellatrixBlock cfg Bm block) : OpSteps cfg block .bellatrix (AltInv cfg S0 p Bm C T committee) :=
+  opSteps_alt cfg S0 p Bm C T committee .bellatrix K KA KD KL hF (by decide) block hb.body
+    (fun ctx payload hpl => alt_payload cfg S0 p Bm C T committee .bellatrix hF (by decide) K hsps block ctx payload (hb.xdata payload hpl))
+    (fun hge => absurd hge (by decide))
+    (fun ctx k st x hx => by rw [hb.bls] at hx; cases hx)
+
+/-- `processBlock_bellatrix_eq`: for EVERY bellatrix block (the engine's verdict is an input) -/
+theorem processBlock_bellatrix (cfg : Config) (S0 : State) (p Bm C T k : Nat) (committee : SyncCommittee) (K : P0Const cfg S0 Bm C) (KA : P0AConst cfg)
+    (KD : P0DConst cfg Bm) (KL : AltConst cfg S0 Bm T) (hsps : 0 < cfg.SECONDS_PER_SLOT) (hF : S0.fork = .bellatrix) (ctx : Ctx) (block : SignedBlock)
+    (hb : BellatrixBlock cfg Bm block)
+    (hi : AltInv cfg S0 p Bm C T committee (blockNeed block k) ctx S0) (htyped : Block.check_types cfg block = .ok ()) :
+    Sim (Block.process_block cfg S0 block) (processBlock cfg ctx S0 block) ∧
+    ∀ st', processBlock cfg ctx S0 block = .ok st' → ∃ ctx', AltInv cfg S0 p Bm C T committee k ctx' st' :=
+  ⟨processBlock_sim (opSteps_bellatrix cfg S0 p Bm C T committee K KA KD KL hsps hF block hb) k ctx S0 hi htyped,
+   processBlock_inv (opSteps_bellatrix cfg S0 p Bm C T committee K KA KD KL hsps hF block hb) k ctx S0 hi⟩
+
+theorem postSlot_bellatrix (cfg : Config) (S0 : State) (p Bm C T k : Nat) (committee : SyncCommittee) (K : P0Const cfg S0 Bm C) (KA : P0AConst cfg)
+    (KD : P0DConst cfg Bm) (KL : AltConst cfg S0 Bm T) (hsps : 0 < cfg.SECONDS_PER_SLOT) (hF : S0.fork = .bellatrix) (ctx : Ctx) (block : SignedBlock)
+    (hb : BellatrixBlock cfg Bm block)
+    (hi : AltInv cfg S0 p Bm C T committee (blockNeed block k) ctx S0) (htyped : Block.check_types cfg block = .ok ())
+    (r : Bytes) (hroot : block.o_post_root = some r) :
+    Sim (Block.state_transition_post_slots cfg S0 block) (postSlotTransition cfg ctx S0 block) :=
+  postSlot_sim (opSteps_bellatrix cfg S0 p Bm C T committee K KA KD KL hsps hF block hb) k ctx S0 hi htyped r hroot
 
 end Zrnt.Proofs.BlockM
